@@ -19,9 +19,11 @@ CONSTANTS Sync,       \* syncPeriodSeconds
           Timeout,    \* requestTimeoutMillis
           Steps,      \* possible times between consecutive loop() calls (ms)
           TMax,       \* horizon (ms)
-          Mode        \* "distinct" (backup # reference) | "same" (backup = reference) | "none" (no reference clock)
+          Mode,       \* "distinct" (backup # reference) | "same" (backup = reference) | "none" (no reference clock)
+          Preset      \* value given to setNow() before the first loop() call (PresetNone: the clock starts unset)
 
 Inv == -999999       \* stands for kInvalidSeconds
+PresetNone == -999999
 VARIABLES now,        \* millisecond counter
           status, cur, reqStart, lastSyncMs,          \* mRequestStatus, mCurrentSyncPeriodSeconds, mRequestStartMillis, mLastSyncMillis
           epoch, prev, isInit, lastSyncTime,          \* the embedded SystemClock
@@ -33,9 +35,11 @@ VARIABLES now,        \* millisecond counter
 vars == <<now, status, cur, reqStart, lastSyncMs, epoch, prev, isInit, lastSyncTime, refReady, refVal, backupVal, backupWrites, requests, lastReqAt, needGap, ev>>
 MaxStep == CHOOSE m \in Steps : \A s \in Steps : s <= m
 
+\* setNow(Preset) at time 0: syncNow() sets the clock and its last-sync time, and the value is passed on (to the backup
+\* clock when it is not the reference clock, and to the reference clock itself: one write is seen on the observed clock)
 Init == /\ now = 0 /\ status = "Ready" /\ cur = Initial /\ reqStart = 0 /\ lastSyncMs = 0
-        /\ epoch = Inv /\ prev = 0 /\ isInit = FALSE /\ lastSyncTime = Inv
-        /\ refReady = FALSE /\ refVal = Inv /\ backupVal = Inv /\ backupWrites = 0 /\ requests = 0
+        /\ epoch = Preset /\ prev = 0 /\ isInit = (Preset # PresetNone) /\ lastSyncTime = Preset
+        /\ refReady = FALSE /\ refVal = Inv /\ backupVal = Preset /\ backupWrites = (IF Preset # PresetNone THEN 1 ELSE 0) /\ requests = 0
         /\ lastReqAt = -1 /\ needGap = 0 /\ ev = "init"
 
 \* the value a valid reference clock reports at time t (true time + 100 s), possibly skewed
@@ -112,7 +116,9 @@ BackoffLaw == [][/\ (ev' = "valid" => cur' = Sync)
 \* the machine always issues another request within a bounded time (safety form)
 BoundedResponse == (Mode # "none" /\ lastReqAt >= 0) => now - lastReqAt <= 1000 * (IF cur > Sync THEN cur ELSE Sync) + Timeout + 2 * MaxStep
 \* with no reference clock it only keeps time
-NoReferenceOnlyKeepsTime == Mode = "none" => (requests = 0 /\ status = "Ready" /\ backupWrites = 0 /\ lastSyncTime = Inv)
+NoReferenceOnlyKeepsTime == Mode = "none" => /\ requests = 0 /\ status = "Ready" /\ lastSyncTime = Preset
+                                             /\ backupWrites = (IF Preset # PresetNone THEN 1 ELSE 0)
+                                             /\ (isInit => epoch = Preset + (prev \div 1000) /\ now - prev < 1000)   \* time is kept: folded at every loop()
 \* one request per Ready -> Sent transition, none otherwise
 RequestCount == [][requests' # requests <=> ev' = "send"]_vars
 
